@@ -19,11 +19,14 @@ CLAIMED = {
                 ' A healthy orbit is proved to be answered, example sets on both paths are proved to meet every hypothesis (no vacuous theorem), and the claim has an '
                 'input-only form: an accepted set with e0 <= 0.39 and TLE mean motion 6.4-18 rev/day, at its epoch or drag-free at any time, is answered within 1 mm / '
                 '1 um/s (C01_accuracy_at_epoch_or_drag_free). PARTIAL: binary64 rounding, and convergence for eL^2 > 4/25, are sampled: implementation vs an '
-                'independent evaluation of the report (worst 0.011 mm) and the AIAA vectors',
+                'independent binary64 evaluation of the report AND vs the same equations evaluated at 60 digits (ordinary orbits: 2e-10 km; this oracle found the 1 + '
+                'cos i cancellation near 180 deg, fixed in c31ed46), and the AIAA vectors',
         "design_ref": 'DESIGN.md 5/C01',
         "note": 'trusted: Coq kernel, stdlib real axioms (+ Uint63/float primitives via Interval in the example), translator (self-checked each run on outcome class '
-                'and state), Spec_SGP4.v transcription (cross-checked by the Gen=Spec proofs: a slip in D4 was caught that way). Known finding C01:aiaa:29141 (decaying'
-                ' SL-14 DEB entry of the AIAA set, 0.35 m)',
+                'and state), Spec_SGP4.v transcription (cross-checked by the Gen=Spec proofs: a slip in D4 was caught that way). Known findings: C01:aiaa:29141 '
+                '(decaying SL-14 DEB entry of the AIAA set, 0.35 m); C01:binary64-conditioning:eL2>=0.9 (accepted high-eccentricity island, metres at 1e6-1e10 km); '
+                'C01:binary64-inclination-rounding:i>=179.999 (nine inclinations next to 180 deg, below 1 m, what is left after fix c31ed46). Exact oracle: '
+                'checks/mpref_tool.py under python3-vt (mpmath)',
         "technique": 'Coq proof over source-regenerated model (symbolic tracing with path enumeration, decision trees, generated conversion lemmas); field/ring; Coquelicot '
                 'MVT/IVT, Lipschitz calculus, quadratic-convergence analysis of the Kepler iteration; independent STR#3 oracle + AIAA vectors',
     },
